@@ -211,7 +211,8 @@ func runC07(c *ctx) {
 	c.res.Rule = "xor: every delivery order of the in-flight envelopes (n=2,3) plus one duplicate and one foreign/stale injection at every position; " +
 		"FROST keygen/sign(+taproot): seeded schedules (random+dups, LIFO, latest-round-first/p2p-before-broadcast); " +
 		"conflicting duplicates (xor, FROST keygen/sign): after every genuine delivery a second, different but individually valid message of the same sender / round / kind (from a second honest instance of the sender, and the genuine one re-encoded), " +
-		"while the round is to come / open / closed: state fingerprint unchanged, in-order result, model replay; non-trivial = at least one delivery; distinct by delivery order"
+		"while the round is to come / open / closed: state fingerprint unchanged, in-order result, model replay; one schedule per session type (FROST keygen / sign, CMP keygen) delivered through the wire format " +
+		"(Message.MarshalBinary -> bytes -> UnmarshalBinary into a fresh Message before Accept; policy wire/...); non-trivial = at least one delivery; distinct by delivery order"
 	if c.replay != "" {
 		var rp schedReplay
 		if readJSON(c.replay, &rp) == nil && strings.HasPrefix(rp.Spec, "doerner-") {
@@ -271,6 +272,18 @@ func runC07(c *ctx) {
 		"random-dup":   func(*Sim) Policy { return policyRandom(0.25) },
 	}
 	polNames := []string{"fifo", "lifo", "latest-first", "random", "random-dup"}
+	// delivery mode "wire" (pump.go Sim.Wire): every envelope through Message.MarshalBinary -> bytes -> UnmarshalBinary into a fresh
+	// Message before Accept, as a real transport does; one such schedule per session type (policy name wire/<policy>)
+	wire := func(p func(*Sim) Policy) func(*Sim) Policy {
+		return func(s *Sim) Policy { s.Wire = true; return p(s) }
+	}
+	wireRun := func(sp SessionSpec, seed int64, pn string, ref map[party.ID]string, sh shapeInfo) {
+		s, order, res := c.runSchedule(sp, seed, wire(func(s *Sim) Policy { s.rng = rand.New(rand.NewSource(seed + 99)); return pols[pn](s) }))
+		if s.WireFail > 0 {
+			c.res.Note("C07 %s wire/%s: %d envelopes did not cross the wire format (handed over in memory): %v", sp.Name, pn, s.WireFail, s.Trace)
+		}
+		c.checkRun(sp, seed, "wire/"+pn, s, order, res, ref, sh)
+	}
 	for _, cfg := range []struct {
 		n, t    int
 		taproot bool
@@ -286,6 +299,7 @@ func runC07(c *ctx) {
 			s, order, res := c.runSchedule(sp, seed, func(s *Sim) Policy { s.rng = rand.New(rand.NewSource(seed + int64(k))); return pols[pn](s) })
 			c.checkRun(sp, seed, pn, s, order, res, ref, sh)
 		}
+		wireRun(sp, seed, "random-dup", ref, sh)
 		// conflicting duplicates: every message of a second instance of every sender (and every genuine message re-encoded)
 		// delivered after the genuine one, while its round is to come / open / closed
 		conflicts := func(sp SessionSpec, seed int64, ref map[party.ID]string, sh shapeInfo) {
@@ -325,6 +339,7 @@ func runC07(c *ctx) {
 					s, order, res := c.runSchedule(sps, seed+1, func(s *Sim) Policy { s.rng = rand.New(rand.NewSource(seed + int64(k))); return pols[pn](s) })
 					c.checkRun(sps, seed+1, pn, s, order, res, rref, shs)
 				}
+				wireRun(sps, seed+1, "random-dup", rref, shs)
 				conflicts(sps, seed+1, rref, shs)
 				// all share holders sign: a signing round then stays open after the first message of a sender
 				spa := specFrostSign(cfgs, ids, []byte("message to sign"), []byte("sg-all"))
@@ -409,7 +424,9 @@ func runC07(c *ctx) {
 			nh = 0
 		}
 		holdOne(spc, c.res.Seed+6, nil, shC, nh)
+		wireRun(spc, c.res.Seed+6, "lifo", nil, shC)
 	}
+	c.c07ForeignAbort() // c07_foreign.go: abort notices of a cancelled sibling session at every point of the in-order schedule
 	c07Sys.note(c, "C07 schedules")
 	// ---------- (c) TwoPartyHandler: Doerner keygen / sign ----------
 	c.c07TwoParty(nil)
